@@ -607,6 +607,16 @@ def run(chk, replay=None):
         hot.append({"ConfigSet": {"key": key, "value": "h%d" % j, "config_type": None, "desc": None,
                                   "history_id": hid, "history_table_id": None, "op_time": 1700000000000 + hid, "op_user": None}})
     rcases.append({"threshold": 40, "phases": [{"reqs": hot}, {"reqs": hot[:1]}], "plants": [], "pace": True})
+    # the raft log spread over SEVERAL files (rollover hook: a file is full after 128 records), compactions that cut across file
+    # boundaries and remove whole files, three restarts
+    multi = []
+    for j in range(900):
+        hid += 1
+        multi.append({"ConfigSet": {"key": c07.K("mf%d" % (j % 11), "g1", ""), "value": "m%d" % j, "config_type": None, "desc": None,
+                                    "history_id": hid, "history_table_id": None, "op_time": 1700000000000 + hid, "op_user": None}})
+    for thr in (100, 100000):
+        rcases.append({"threshold": thr, "log_limit": 43, "phases": [{"reqs": multi[:400]}, {"reqs": multi[400:650]}, {"reqs": multi[650:]}],
+                       "plants": [], "pace": True})
     r_out = lib.harness_run_parallel("restart", rcases, shards=8, env=env, timeout=2400)
     compactions = 0
     planted = 0
